@@ -76,3 +76,18 @@ fn model_chunking_search() {
     }
     assert_eq!(found, 0, "chunk-dependent behaviour in the reference semantics");
 }
+
+#[test]
+fn model_chunking_cex() {
+    let buf: [u8; 12] = [0, 0, 0, 11, 98, 114, 111, 226, 0, 0, 0, 0];
+    let pre = CState { arm: 1, box_type: [98, 120, 108, 112], box_size: Some(u64::MAX), brotli_box_type: Some([255; 4]), bytes_left: Some(usize::MAX), kind: 2,
+        pending_no_more_aux_box: false, jxlp_state: 2, jxlp_index: 131842 };
+    let (len, k) = (12usize, 10usize);
+    let (mut sa, mut sb) = (pre, pre);
+    let (mut ea, mut eb) = (Vec::new(), Vec::new());
+    let (mut ca, mut c1, mut c2) = (0, 0, 0);
+    let ok_a = feed_all(&mut sa, &buf[..len], 0, &mut ea, &mut ca);
+    let ok_b1 = feed_all(&mut sb, &buf[..k], 0, &mut eb, &mut c1);
+    let ok_b = ok_b1 && feed_all(&mut sb, &buf[c1..len], c1, &mut eb, &mut c2);
+    println!("whole ok {ok_a} c {ca} {:?}\nsplit ok {ok_b} c {} {:?}\n{:?}\n{:?}", ea, c1 + c2, eb, sa, sb);
+}
